@@ -305,7 +305,7 @@ void mmd_export_link_html(DString * out, const char * source, token * text, link
 		print_const(" ");
 		print(a->key);
 		print_const("=\"");
-		print(a->value);
+		mmd_print_string_html(out, a->value, false, false);
 		print_const("\"");
 		a = a->next;
 	}
@@ -354,16 +354,21 @@ void mmd_export_image_html(DString * out, const char * source, token * text, lin
 				store_asset(scratch, link->url);
 			}
 
-			printf("<img src=\"%s\"", link->url);
+			print_const("<img src=\"");
+			mmd_print_string_html(out, link->url, false, false);
+			print_const("\"");
 		}
 	} else {
 		print_const("<img src=\"\"");
 	}
 
 	if (text) {
+		DString * alt = d_string_new("");
+		print_token_tree_raw(alt, source, text->child);
 		print_const(" alt=\"");
-		print_token_tree_raw(out, source, text->child);
+		mmd_print_string_html(out, alt->str, false, false);
 		print_const("\"");
+		d_string_free(alt, true);
 	}
 
 	if (link->label && !(scratch->extensions & EXT_COMPATIBILITY)) {
@@ -374,7 +379,9 @@ void mmd_export_image_html(DString * out, const char * source, token * text, lin
 	}
 
 	if (link->title && link->title[0] != '\0') {
-		printf(" title=\"%s\"", link->title);
+		print_const(" title=\"");
+		mmd_print_string_html(out, link->title, false, false);
+		print_const("\"");
 	}
 
 	while (a) {
@@ -391,7 +398,7 @@ void mmd_export_image_html(DString * out, const char * source, token * text, lin
 				print_const(" ");
 				print(a->key);
 				print_const("=\"");
-				print(a->value);
+				mmd_print_string_html(out, a->value, false, false);
 				print_const("\"");
 				free(width);
 				width = NULL;
@@ -412,7 +419,7 @@ void mmd_export_image_html(DString * out, const char * source, token * text, lin
 				print_const(" ");
 				print(a->key);
 				print_const("=\"");
-				print(a->value);
+				mmd_print_string_html(out, a->value, false, false);
 				print_const("\"");
 				free(height);
 				height = NULL;
@@ -424,7 +431,7 @@ void mmd_export_image_html(DString * out, const char * source, token * text, lin
 			print_const(" ");
 			print(a->key);
 			print_const("=\"");
-			print(a->value);
+			mmd_print_string_html(out, a->value, false, false);
 			print_const("\"");
 		}
 
@@ -435,11 +442,15 @@ void mmd_export_image_html(DString * out, const char * source, token * text, lin
 		print_const(" style=\"");
 
 		if (height) {
-			printf("height:%s;", height);
+			print_const("height:");
+			mmd_print_string_html(out, height, false, false);
+			print_const(";");
 		}
 
 		if (width) {
-			printf("width:%s;", width);
+			print_const("width:");
+			mmd_print_string_html(out, width, false, false);
+			print_const(";");
 		}
 
 		print_const("\"");
@@ -679,7 +690,9 @@ void mmd_export_token_html(DString * out, const char * source, token * t, scratc
 				}
 
 				print_const("<pre><code");
-				printf(" class=\"%s\"", temp_char);
+				print_const(" class=\"");
+				mmd_print_string_html(out, temp_char, false, false);
+				print_const("\"");
 				free(temp_char);
 			} else {
 				print_const("<pre><code");
